@@ -11,7 +11,7 @@ Record mq := { q_fs : fsys; q_entry : fpath; q_probes : list (fpath * spelling) 
 Definition mobs := (N * list fpath * list (list value))%type.
 
 Definition err_code (e : errk) : N :=
-  match e with ECircular => 1 | ENotFound => 2 | ESymbolNotFound => 3 | ESymbolConflict => 4 end.
+  match e with ECircular => 1 | ENotFound => 2 | ESymbolNotFound => 3 | ESymbolConflict => 4 | ECompile => 5 | ERuntime => 6 end.
 
 Fixpoint take_some {A} (l : list (option A)) : list A :=
   match l with
@@ -20,12 +20,13 @@ Fixpoint take_some {A} (l : list (option A)) : list A :=
   end.
 
 Definition probe_obs (evs : list event) (pr : fpath * spelling) : list value :=
-  take_some (map (fun ev => probe ev (snd pr)) (filter (fun ev => key_eqb (ev_file ev) (fst pr)) evs)).
+  (* the probe is the last statement of the file: a top level that raised never reaches it *)
+  take_some (map (fun ev => probe ev (snd pr)) (filter (fun ev => key_eqb (ev_file ev) (fst pr) && ev_done ev) evs)).
 
 Definition mod_obs (q : mq) : mobs :=
   match run (q_fs q) (q_entry q) (fuel_bound (q_fs q)) with
   | Ok evs => (0, map ev_file evs, map (probe_obs evs) (q_probes q))
-  | Err e evs => (err_code e, map ev_file evs, map (probe_obs evs) (q_probes q))
+  | Err e s => (err_code e, map ev_file (events s), map (probe_obs (events s)) (q_probes q))
   | Fuel => (8, [], [])
   end.
 
@@ -58,7 +59,7 @@ Definition sess_results (q : sq) : list (res (list event)) :=
 Definition sres_obs (r : res (list event)) : N * list fpath :=
   match r with
   | Ok evs => (0, map ev_file evs)
-  | Err e evs => (err_code e, map ev_file evs)
+  | Err e s => (err_code e, map ev_file (events s))
   | Fuel => (8, [])
   end.
 
